@@ -500,12 +500,23 @@ Proof.
   - splits; auto. apply (mk_SyncP _ _ _ ru); cbn; auto; try congruence; try (rewrite B1; congruence).
 Qed.
 
+Lemma syncp_resize c s t t' : SyncP c s t -> resized_partial s t t' -> SyncP c (ack (winch s)) t'.
+Proof.
+  intros (ru & H1 & H2 & H3 & H4 & H5 & H6 & H7 & H8 & H9 & H10 & H11 & H12 & H13 & H14)
+         (R1 & R2 & R3 & R4 & R5 & R6 & R7 & R8 & R9 & R10).
+  destruct (R10 ru H1) as [Q1 Q2].
+  apply (mk_SyncP _ _ _ ru); cbn; auto; try congruence; try lia.
+  - intros U. rewrite R3. auto.
+  - intros G. rewrite R5. auto.
+  - intros B. rewrite R7. auto.
+Qed.
+
 Lemma reachp_inv c s t last : cfg_ok c -> ReachP c s t last ->
   SyncP c s t /\ (forall content cursor, last = Some (content, cursor) -> PaintsPartial c s t content cursor).
 Proof.
   intros Hc R. induction R as
     [cols rows Hcols Hrows | s t last content cursor toks s' R IH Hcan Hcur Hd | s t last R IH
-     | s t last content cursor toks s' R IH Hcan Hcur Hd].
+     | s t last content cursor toks s' R IH Hcan Hcur Hd | s t last t' R IH Hrs].
   - split; [apply syncp_start; assumption|intros; discriminate].
   - destruct IH as [HS _].
     destruct (draw_paints_partial_lemma c s t _ _ content cursor Hc HS eq_refl eq_refl Hcan Hcur)
@@ -516,6 +527,7 @@ Proof.
   - destruct IH as [HS _].
     destruct (syncp_abandoned c s t _ _ content cursor toks s' Hc HS eq_refl eq_refl Hcan Hcur Hd) as (HS' & _).
     split; [exact HS'|intros; discriminate].
+  - destruct IH as [HS _]. split; [eapply syncp_resize; eauto|intros; discriminate].
 Qed.
 
 Theorem partial_history_paints_lemma c s t content cursor :
